@@ -75,6 +75,19 @@ def rw1(F, R, only_stop=False):
             elif e.op not in ("clear", "remove", "get", "iter", "len", "contains_key", "is_empty"):
                 R.bad("RW1", "RW1/Sodg::bind/edge-write-shape/%s" % e.op, e.where(), "bind() changes an edge map by an unrecognised operation")
         R.floor("RW1", "edge inserts in bind()", len(ins), 1, b.where())
+        # ... and bind() stops a call only for a documented precondition or for the (N+1)-th label: no other always-compiled assertion
+        for f, bi in b.compiled_assertions():
+            if is_documented_precondition(b, f) or (f[0] == "bool" and strip_load(f[1])[0] == "ovf"):
+                continue
+            ce = strip_load(f[1]) if f[0] == "bool" else None
+            if ce is not None and f[2] is True and ce[0] == "call" and ce[1].split("::")[-1] == "contains_key" and \
+                    mentions(ce[2][0], lambda x: x[0] == "field" and x[2] == "Vertex::edges"):
+                continue        # the second disjunct of `edges.len() < N || edges.contains_key(label)` (ND3 checks the shape)
+            if f[0] == "in" and strip_load(f[1])[0] == "discr":
+                continue        # unwrap-like tests of lookups (slot exists, free slot found)
+            R.bad("RW1", "RW1/Sodg::bind/may-panic-within-limits", b.where((bi, 0)),
+                  "bind() asserts %s: a call within the limits (e.g. re-binding an existing label on a vertex that has N labels) stops with a "
+                  "panic" % show(f, b)[:140])
         return
     dropped = False
     for e in list(ok):
